@@ -20,13 +20,15 @@ import (
 type Probe struct {
 	Kind int `json:"k"` // 0 random bytes, 1 prefix of a genuine first segment, 2 one bit of a genuine first segment flipped,
 	// 3 well-formed handshake under a wrong password (hint of a real user), 4 well-formed handshake of an unregistered user,
-	// 5 genuine first segment with one byte substituted, 6 genuine data/ack-type first segment under a foreign key
+	// 5 genuine first segment with one byte substituted, 6 genuine data/ack-type first segment under a foreign key,
+	// 7 reflection: traffic the server itself sent to a genuine client, recorded and sent to the server port
 	Len    int    `json:"len,omitempty"`
 	Bit    int    `json:"bit,omitempty"`
 	Seed   uint64 `json:"seed"`
 	User   int    `json:"user,omitempty"`
 	GapMs  int    `json:"gapMs,omitempty"`  // pause before this probe
 	NewSrc bool   `json:"newSrc,omitempty"` // open a new TCP connection / use a new UDP source for this probe
+	Late   bool   `json:"late,omitempty"`   // kind 7: wait until the genuine session has ended and the server's 5 s clean-up has forgotten it
 }
 
 type Case struct {
@@ -38,6 +40,7 @@ type Case struct {
 	Bystander bool            `json:"bystander,omitempty"`
 	Salt      uint64          `json:"salt"`
 	Pattern   e2e.PatternSpec `json:"serverPattern"`
+	CPattern  e2e.PatternSpec `json:"clientPattern"` // the bystander's pattern (low entropy is chosen by the client)
 }
 
 var users = []e2e.UserSpec{
@@ -57,9 +60,10 @@ func genCase(t *rapid.T) Case {
 	c.Bystander = rapid.IntRange(0, 2).Draw(t, "bystander") != 0
 	c.Salt = rapid.Uint64().Draw(t, "salt")
 	c.Pattern = e2e.GenPattern(t, "sp", 0)
+	c.CPattern = e2e.GenPattern(t, "cp", 0)
 	n := rapid.IntRange(1, 12).Draw(t, "nProbes")
 	for i := 0; i < n; i++ {
-		p := Probe{Kind: rapid.SampledFrom([]int{0, 0, 1, 1, 2, 2, 2, 3, 3, 4, 5, 6}).Draw(t, "kind"), Seed: rapid.Uint64().Draw(t, "pseed")}
+		p := Probe{Kind: rapid.SampledFrom([]int{0, 0, 1, 1, 2, 2, 2, 3, 3, 4, 5, 6, 7, 7}).Draw(t, "kind"), Seed: rapid.Uint64().Draw(t, "pseed")}
 		p.User = rapid.IntRange(0, c.NUsers-1).Draw(t, "puser")
 		p.GapMs = rapid.SampledFrom([]int{0, 0, 0, 1, 10}).Draw(t, "gap")
 		p.NewSrc = i == 0 || rapid.IntRange(0, 2).Draw(t, "newSrc") == 0
@@ -73,6 +77,16 @@ func genCase(t *rapid.T) Case {
 			p.Len = rapid.IntRange(0, 120).Draw(t, "prefixLen")
 		case 2, 5:
 			p.Bit = rapid.IntRange(0, 4000).Draw(t, "bit")
+		case 7:
+			p.Len = rapid.IntRange(0, 40).Draw(t, "which")
+			c.Bystander = true
+			if rapid.Bool().Draw(t, "forceLE") {
+				// the server uses low entropy only towards a client that uses it
+				m1, m2 := int32(rapid.IntRange(1, 4).Draw(t, "leS")), int32(rapid.IntRange(1, 4).Draw(t, "leC"))
+				c.Pattern.Nil, c.CPattern.Nil = false, false
+				c.Pattern.HasLE, c.Pattern.LEMode = true, &m1
+				c.CPattern.HasLE, c.CPattern.LEMode = true, &m2
+			}
 		}
 		c.Probes = append(c.Probes, p)
 	}
@@ -105,13 +119,15 @@ func genuineFirst(u e2e.UserSpec, seed uint64, udp bool, proto uint8) ([]byte, i
 	return b, len(b) - len(pad)
 }
 
-func buildProbe(c Case, p Probe) (data []byte, derived bool) {
+// missing (kind 1 only) is how many bytes the prefix lacks up to the end of the
+// authenticated part of the genuine segment it was cut from.
+func buildProbe(c Case, p Probe) (data []byte, derived bool, missing int) {
 	u := users[p.User%c.NUsers]
 	switch p.Kind {
 	case 0:
 		b := make([]byte, p.Len)
 		e2e.PRFFill(p.Seed, 0, b)
-		return b, false
+		return b, false, 0
 	case 1:
 		// cut strictly inside the authenticated part: a copy that is complete up
 		// to its (unauthenticated) end padding is still a genuine handshake
@@ -120,32 +136,32 @@ func buildProbe(c Case, p Probe) (data []byte, derived bool) {
 		if n >= authEnd {
 			n = authEnd - 1 - n%7
 		}
-		return g[:n], true
+		return g[:n], true, authEnd - n
 	case 2:
 		g, authEnd := genuineFirst(u, p.Seed, c.UDP, refproto.OpenSessionRequest)
 		bit := p.Bit % (authEnd * 8) // only authenticated bytes: a flip inside the padding leaves it genuine
 		g[bit/8] ^= 1 << uint(bit%8)
-		return g, true
+		return g, true, 0
 	case 3:
 		g, _ := genuineFirst(e2e.UserSpec{Name: u.Name, Password: u.Password + "-wrong"}, p.Seed, c.UDP, refproto.OpenSessionRequest)
-		return g, true
+		return g, true, 0
 	case 4:
 		g, _ := genuineFirst(e2e.UserSpec{Name: "mallory", Password: u.Password}, p.Seed, c.UDP, refproto.OpenSessionRequest)
-		return g, true
+		return g, true, 0
 	case 5:
 		g, authEnd := genuineFirst(u, p.Seed, c.UDP, refproto.OpenSessionRequest)
 		i := p.Bit % authEnd
 		g[i] ^= byte(p.Seed>>8) | 1
-		return g, true
+		return g, true, 0
 	default:
 		g, _ := genuineFirst(e2e.UserSpec{Name: u.Name, Password: "foreign"}, p.Seed, c.UDP, refproto.DataClientToServer)
-		return g, true
+		return g, true, 0
 	}
 }
 
 func prop(c Case) (o pbt.Outcome) {
-	cfg := e2e.Config{UDP: c.UDP, Users: users[:c.NUsers], HintMandatory: c.Mandatory, ServerPattern: c.Pattern, BothTransports: true}
-	sn := simnet.NewStreamNet(simnet.StreamOpts{})
+	cfg := e2e.Config{UDP: c.UDP, Users: users[:c.NUsers], HintMandatory: c.Mandatory, ServerPattern: c.Pattern, ClientPattern: c.CPattern, BothTransports: true}
+	sn := simnet.NewStreamNet(simnet.StreamOpts{Record: true})
 	pn := simnet.NewPacketNet()
 	env, err := e2e.StartServer(cfg, sn, pn)
 	if err != nil {
@@ -172,12 +188,64 @@ func prop(c Case) (o pbt.Outcome) {
 	var curConn *simnet.Conn
 	var curSock *simnet.PacketConn
 	srvUDP := &net.UDPAddr{IP: net.IPv4(10, 0, 0, 1), Port: 7000}
-	nontrivial := 0
+	nontrivial, reflected, late := 0, 0, 0
+	var by *e2e.RunResult
+	// a prefix that lacks only a few bytes of its authenticated part can be
+	// completed by chance by whatever follows on the same connection (1 byte
+	// missing: 1 in 256) and is then a genuine handshake: the connection is not
+	// re-used after such a prefix
+	abandonConn := false
 	for i, p := range c.Probes {
 		if p.GapMs > 0 {
 			time.Sleep(time.Duration(p.GapMs) * time.Millisecond)
 		}
-		data, derived := buildProbe(c, p)
+		var data []byte
+		var derived bool
+		var missing int
+		if p.Kind == 7 {
+			// reflection: what the server has sent to the genuine client so far
+			// (wait briefly for the first of it)
+			derived = true
+			if p.Late && by == nil {
+				select {
+				case by = <-byDone:
+				case <-time.After(45 * time.Second):
+					o.Inconclusive = "bystander did not finish"
+					return
+				}
+				time.Sleep(6500 * time.Millisecond)
+				late++
+			}
+			for end := time.Now().Add(300 * time.Millisecond); ; {
+				if c.UDP {
+					dg, _ := pn.Snapshot()
+					var fromServer [][]byte
+					for _, d := range dg {
+						if d.From.Port == 7000 && d.To.IP.Equal(net.IPv4(10, 0, 0, 2)) {
+							fromServer = append(fromServer, d.Data)
+						}
+					}
+					if len(fromServer) > 0 {
+						data = fromServer[p.Len%len(fromServer)]
+					}
+				} else {
+					for _, l := range sn.Links() {
+						if !l.ClientAddr.IP.Equal(proberIP) {
+							data = l.SentS2C()
+						}
+					}
+				}
+				if len(data) > 0 || time.Now().After(end) {
+					break
+				}
+				time.Sleep(5 * time.Millisecond)
+			}
+			if len(data) > 0 {
+				reflected++
+			}
+		} else {
+			data, derived, missing = buildProbe(c, p)
+		}
 		if len(data) >= 72 || derived {
 			nontrivial++
 		}
@@ -197,7 +265,8 @@ func prop(c Case) (o pbt.Outcome) {
 			}
 			curSock.WriteTo(data, srvUDP)
 		} else {
-			if p.NewSrc || curConn == nil {
+			if p.NewSrc || curConn == nil || abandonConn {
+				abandonConn = false
 				conn, link, err := sn.DialLinkFrom("10.0.0.1:7000", proberIP)
 				if err != nil {
 					o.Failf("harness", "dial: %v", err)
@@ -208,12 +277,14 @@ func prop(c Case) (o pbt.Outcome) {
 			}
 			curConn.SetWriteDeadline(time.Now().Add(2 * time.Second))
 			curConn.Write(data) // the server may have stopped reading: ignore errors
+			if p.Kind == 1 && missing < 8 {
+				abandonConn = true
+			}
 		}
 	}
 	// settle
 	time.Sleep(120 * time.Millisecond)
-	var by *e2e.RunResult
-	if c.Bystander {
+	if c.Bystander && by == nil {
 		select {
 		case by = <-byDone:
 		case <-time.After(45 * time.Second):
@@ -275,6 +346,8 @@ func prop(c Case) (o pbt.Outcome) {
 	o.Label("udp=%v", c.UDP)
 	o.Label("bystander=%v", c.Bystander)
 	o.Label("probes=%d", len(c.Probes))
+	o.Label("reflected=%v", reflected > 0)
+	o.Label("reflectedAfterCleanup=%v", late > 0)
 	for _, p := range c.Probes {
 		o.Label("kind%d", p.Kind)
 	}
